@@ -241,7 +241,7 @@ def too_deep(text, depth=30, ops=250):
 # (Gen/Bodies.lean, translate/gen_bodies.py) substituted for the hand-written ones (Model/EvalG.lean)
 BODIES_STREAMS = {"run": "runG", "runsess": "runsessG"}
 BODIES_GEN = ["Bodies"]
-BODIES_MODULES = ["KaVerif.Props.Bodies"]
+BODIES_MODULES = ["KaVerif.Props.Bodies", "KaVerif.Props.BodiesDispatch"]
 
 
 def bodies_theorems(prefixes=None):
@@ -256,7 +256,11 @@ def bodies_theorems(prefixes=None):
     names = [n for n in names if n not in fixed]
     if prefixes is not None:
         names = [n for n in names if any(x in n for x in prefixes)]
-    return fixed + names
+    # Props/BodiesDispatch: one level of dispatch over the translated table = one level over the hand-written table
+    # (tools/bodies_dispatch_theorems.txt, written by tools/mkbodiesprops.py next to Props/BodiesDispatch.lean)
+    pd = os.path.join(core.VERIF, "tools", "bodies_dispatch_theorems.txt")
+    disp = [l.strip() for l in open(pd) if l.strip()] if os.path.exists(pd) else []
+    return fixed + [d for d in disp if d not in fixed] + names
 
 
 def bodies_coverage(ctx):
